@@ -92,8 +92,10 @@ pub fn parse_dxtn<'a>(
         }
 
         let image_bytes = &original_input[offset as usize..(offset + size) as usize];
-        let n = blp_header.mipmap_pixels(i);
-        let blocks_n = ((n as f32) / 16.0).ceil() as usize;
+        // DXT data is stored in 4x4 blocks: partial blocks at the right and bottom
+        // edges are whole blocks, so count per dimension
+        let (level_width, level_height) = blp_header.mipmap_size(i);
+        let blocks_n = (level_width.div_ceil(4) * level_height.div_ceil(4)) as usize;
         let mut blocks_size = blocks_n * dxtn.block_size();
         trace!("Dxtn blocks count: {blocks_n}");
         trace!("Dxtn format: {dxtn:?}, block size: {}", dxtn.block_size());
